@@ -23,7 +23,13 @@ from xml.etree import ElementTree as ET
 from rt.common import Workload, main, schema, codes  # noqa: F401
 from rt.c14_edit import XmlDoc, WikiDoc
 
-BUNDLED = "/repo/hed/schema/schema_data"
+
+
+def _bundled_dir():
+    """schema_data of the hed package that is actually imported (the working tree of /repo in the normal set-up)"""
+    import hed.schema
+    return os.path.join(os.path.dirname(os.path.abspath(hed.schema.__file__)), "schema_data")
+
 ERROR = 1   # hed.errors.error_types.ErrorSeverity.ERROR
 
 # specification code per fault kind  (kind -> (clause, code))
@@ -55,7 +61,7 @@ SECTION_CTX = {"tags": "tags", "units": "units", "unitClasses": "unitClasses", "
 def bundled_versions():
     """[(version string, path, library, withStandard)] for every schema file shipped in the package"""
     out = []
-    for path in sorted(glob.glob(os.path.join(BUNDLED, "*.xml"))):
+    for path in sorted(glob.glob(os.path.join(_bundled_dir(), "*.xml"))):
         root = ET.parse(path).getroot()
         lib, ver, ws = root.get("library", ""), root.get("version"), root.get("withStandard", "")
         out.append(((lib + "_" if lib else "") + ver, path, lib, ws))
